@@ -1385,11 +1385,21 @@ where
     F: FnOnce(Env) -> Fut,
     Fut: Future<Output = T>,
 {
-    let rt = tokio::runtime::Builder::new_current_thread()
-        .enable_time()
-        .start_paused(true)
-        .build()
-        .expect("runtime");
+    run_in_runtime_opts(schedule, false, body)
+}
+
+/// `io`: also enable the I/O driver (the cluster's node server binds a listener socket)
+pub fn run_in_runtime_opts<T, F, Fut>(schedule: &[u8], io: bool, body: F) -> T
+where
+    F: FnOnce(Env) -> Fut,
+    Fut: Future<Output = T>,
+{
+    let mut b = tokio::runtime::Builder::new_current_thread();
+    b.enable_time().start_paused(true);
+    if io {
+        b.enable_io();
+    }
+    let rt = b.build().expect("runtime");
     let gate = Gate::new();
     gate.install();
     CASE.with(|c| {
